@@ -1,6 +1,6 @@
 (* Extraction of the C05 model. ExtrOcamlBasic only; N / Z / positive / nat stay Coq datatypes. *)
 From Coq Require Import Extraction ExtrOcamlBasic NArith ZArith.
 From V Require Import C05.Model.
-Extraction "c05_model.ml" run exec_crash exec_fault crash_disk batch_counts ops_env cont
+Extraction "c05_model.ml" run exec_crash exec_fault crash_disk batch_counts ops_env ops_fresh cont
   consistent windows_ok recover_ready index_covers mem_covers stores rf_equiv rf_superset reinit
   disk0 rf0 all_fams floor N.of_nat Z.of_N.
